@@ -82,7 +82,7 @@ class Walker:
         rng = self.rng
         ops = ["add", "sub", "mul", "scalar", "neg", "kron", "matmul", "t", "round", "getitem", "sum", "cat", "pad", "diag",
                "mprod", "to_ttm", "conj", "clone", "detach", "to", "reshape", "permute", "ctor_dense", "ctor_cores", "factory",
-               "set_core", "reduce_dims", "dot_partial", "qtt", "full_numpy", "norm", "truediv_scalar", "rmul", "pow_none"]
+               "set_core", "reduce_dims", "dot_partial", "qtt", "full_numpy", "norm", "truediv_scalar", "rmul", "pow_none", "manifold"]
         if self.allow_solvers:
             ops += ["fast_matvec", "dmrg_hadamard", "amen_mv", "amen_mm", "amen_solve", "divide", "interpolate"]
         op = force if force is not None else rng.choice(ops)
@@ -457,6 +457,17 @@ class Walker:
         if k == 1:
             return 2.0 / y
         return torchtt.elementwise_divide(x, y, eps=1e-8, nswp=10)
+
+    def op_manifold(self, x, i, info):
+        import torchtt.manifold as MF
+        if int(np.prod(x.N)) * (int(np.prod(x.M)) if x.is_ttm else 1) > 400:
+            info["skipped"] = True; return None
+        if self.rng.random() < 0.6:
+            y, j = self.partner(x); info["refs"].append(j)
+            return MF.riemannian_projection(x, y)
+        if x.cores[0].dtype not in (tn.float64, tn.float32):
+            info["skipped"] = True; return None
+        return MF.riemannian_gradient(x, lambda y: (y * y).sum())
 
     def op_interpolate(self, x, i, info):
         if x.is_ttm or len(x.N) < 2 or int(np.prod(x.N)) > 300:
